@@ -456,6 +456,29 @@ def _lin(e, env):
             return (0, {'strlen(%s)' % expr_str(strip_casts(e['args'][0])): 1})
         if cn == 'pointer_encoded_length':
             return (0, {'pel(%s)' % expr_str(strip_casts(e['args'][0])): 1})
+        if cn == 'sprintf' and len(e['args']) >= 2 and strip_casts(e['args'][1]).get('k') == 'str':
+            # the value of sprintf is the number of characters it wrote: literals exactly, %s as strlen, a bounded conversion as
+            # one term with that bound
+            total = (0, {})
+            ai = 2
+            for piece in parse_format(strip_casts(e['args'][1])['bytes']):
+                if piece[0] == 'lit':
+                    total = _lin_add(total, (piece[1], {}))
+                    continue
+                arg = e['args'][ai] if ai < len(e['args']) else None
+                ai += 1
+                if piece[1] == 's' and arg is not None and strip_casts(arg).get('k') == 'str':
+                    total = _lin_add(total, (len(bytes(strip_casts(arg)['bytes']).split(b'\0')[0]), {}))
+                elif piece[1] == 's':
+                    total = _lin_add(total, (0, {'strlen(%s)' % expr_str(strip_casts(arg)): 1}))
+                else:
+                    m = conv_max_len(piece, _UNIT, arg)
+                    if m is None:
+                        return None
+                    atom = 'printed(%%%s %s)' % (piece[1], expr_str(strip_casts(arg))[:30] if arg is not None else '?')
+                    _UB[atom] = m
+                    total = _lin_add(total, (0, {atom: 1}))
+            return total
         if _UNIT is not None and cn in _UNIT.functions and e.get('ty') is not None:
             t = _UNIT.ty(e.get('ty0', e['ty']))
             pure = all(strip_casts(a).get('k') in ('ref', 'mem', 'int') or const_val(a) is not None for a in e['args'])
@@ -497,14 +520,19 @@ def _ptr_split(e):
     return e, offs
 
 
+_UB = {}      # atom -> largest value it can have (lengths produced by bounded sprintf conversions)
+
+
 def _leq(a, b):
-    """a <= b for linear forms with non-negative terms."""
-    if a[0] > b[0]:
-        return False
+    """a <= b for linear forms with non-negative terms; a term of a that b lacks may be replaced by its upper bound."""
+    slack = b[0] - a[0]
     for k, v in a[1].items():
-        if v > b[1].get(k, 0):
-            return False
-    return True
+        extra = v - b[1].get(k, 0)
+        if extra > 0:
+            if k not in _UB:
+                return False
+            slack -= extra * _UB[k]
+    return slack >= 0
 
 
 def _fmt(l):
@@ -648,6 +676,7 @@ def out7(units, R):
     global _UNIT
     u = units['cJSON_Utils.c']
     _UNIT = u
+    _UB.clear()
     nsites = 0
     summaries = {}
     broken = []
